@@ -365,6 +365,22 @@ fn fam_nonchars(_t: Tier) -> BoxedStrategy<Case> {
         .boxed()
 }
 
+/// XML declarations built from the grammar's parts, each part well-formed or damaged: what is copied to the output must be a
+/// declaration an XML parser accepts
+fn fam_xml_decls(_t: Tier) -> BoxedStrategy<Case> {
+    const VERSION: &[&str] = &[" version=\"1.0\"", " version='1.1'", " version = \"1.0\"", " version=\"2\"", " version=\"1.\"", " version=1.0", "version=\"1.0\"", " Version=\"1.0\"", ""];
+    const ENCODING: &[&str] = &["", " encoding=\"UTF-8\"", " encoding='utf-8'", " encoding=;UTF-8\"", " encoding=\"\"", " encoding=\"8bit\"", " encoding=\"UTF 8\"", "encoding=\"UTF-8\"", " encoding=\"UTF-8"];
+    const STANDALONE: &[&str] = &["", " standalone=\"yes\"", " standalone='no'", " standalone=\"maybe\"", " standalone=yes", " bogus=\"1\"", " standalone=\"no\" encoding=\"UTF-8\""];
+    (0..VERSION.len(), 0..ENCODING.len(), 0..STANDALONE.len(), 0u8..3, any::<bool>(), gen::cfg_benign())
+        .prop_map(|(v, e, sd, tail, ns, cfg)| {
+            let decl = format!("<?xml{}{}{}{}?>", VERSION[v], ENCODING[e], STANDALONE[sd], ["", " ", "\n"][tail as usize]);
+            let body = "<rect x=\"1\" y=\"2\" width=\"10\" height=\"5\"/>";
+            let input = if ns { format!("{decl}\n<svg xmlns=\"{SVG_NS}\">{body}</svg>") } else { format!("{decl}\n<svg>{body}</svg>") };
+            Case { input, cfg, rooted: Some(true), namespaced: ns, fam: "xml-declarations".into() }
+        })
+        .boxed()
+}
+
 fn fam_docgen(_t: Tier) -> BoxedStrategy<Case> {
     (gen::docgen(DocOpts::all(), 10, gen::hostile(4).boxed()), gen::cfg_hostile(), crate::props::union::root_attrs(), any::<bool>())
         .prop_map(|(input, cfg, ra, with_ra)| {
@@ -419,6 +435,7 @@ impl Property for C02 {
             Family::random("passthrough", tier.n(6_000, 30_000), fam_passthrough),
             Family::random("lenient", tier.n(1_600, 3000), fam_lenient),
             Family::random("prolog-and-mixed-content", tier.n(4_000, 20_000), fam_prolog),
+            Family::random("xml-declarations", tier.n(1_500, 6_000), fam_xml_decls),
             Family::random("non-chars", tier.n(1_500, 8000), fam_nonchars),
             Family::random("docgen", tier.n(8_000, 50_000), fam_docgen),
             Family::fixed("corpus", corpus),
